@@ -15,7 +15,7 @@ PY = "/venv/bin/python"
 # property -> (technique, decided clauses, undecided clauses)
 CLAIMS = {
     "C01": (
-        "kind-lattice abstract interpretation at match-construction sites; loop-nesting, pre-order and guard-dominance rules; regex-AST rule on string tokens; abstract execution (partial evaluator + model objects) of the six selector classes on covering small documents; lexer decisions on the reconstructed master pattern; abstract execution of Parser.parse_selector_list on the lexer model's tokens of covering bracketed selections",
+        "kind-lattice abstract interpretation at match-construction sites; loop-nesting, pre-order and guard-dominance rules; regex-AST rule on string tokens; abstract execution (partial evaluator + model objects) of the six selector classes on covering small documents; lexer decisions on the reconstructed master pattern; abstract execution of Parser.parse_selector_list on the lexer model's tokens of covering bracketed selections; abstract execution of every selector's resolve() as a whole on input nodelists that hold a node and its descendant or one node twice (result = concatenation of the per-node results)",
         "wrong-kind values select nothing; list concatenation per input node; descendant pre-order; document member order; zero step; quoted-string token shape",
         "index/slice arithmetic, full nodelist equality, blank-space tolerance",
     ),
@@ -30,7 +30,7 @@ CLAIMS = {
         "normalised index arithmetic, object identity of re-evaluated nodes",
     ),
     "C04": (
-        "ordered-replace-chain rule, guard-dominance (must) analysis for int() recognisers, kind analysis of _getitem, handler-class rule for exists, codec-domain rule; who-may-store rule (no memo in a class- or module-level container keyed without every argument read); abstract execution of JSONPointer resolve / exists on every node of a covering document and on pointers RFC 6901 cannot evaluate",
+        "ordered-replace-chain rule, guard-dominance (must) analysis for int() recognisers, kind analysis of _getitem, handler-class rule for exists, codec-domain rule; who-may-store rule (no memo in a class- or module-level container keyed without every argument read); abstract execution of JSONPointer resolve / exists on every node of a covering document and on pointers RFC 6901 cannot evaluate; abstract execution of JSONPathMatch.pointer().resolve(doc) for a match at every node of the covering document",
         "decode/encode order, canonical index recogniser, scalar targets rejected, exists = success of resolve, decoder domain",
         "reachability of every node of every document",
     ),
@@ -40,7 +40,7 @@ CLAIMS = {
         "resulting-document equality over operation sequences",
     ),
     "C06": (
-        "exception-escape (effect) analysis over the resolved call graph with a closed table of partial built-in operations; loop-progress rule for termination; regex-AST ambiguity rule (no unbounded repetition over overlapping alternatives) on the library's own patterns",
+        "exception-escape (effect) analysis over the resolved call graph with a closed table of partial built-in operations; loop-progress rule for termination; regex-AST ambiguity rule (no unbounded repetition over overlapping alternatives) on the library's own patterns; MEMO: a call of a functools.lru_cache / cache wrapped function hashes its arguments before the body's try (implicit TypeError unless the arguments are statically hashable); regex-AST rule extended to a round of a repeated group that ends in an unbounded run the next round can continue",
         "escape sets of all documented entry points, handler soundness, parser loop progress, exception rendering",
         "third-party termination (re, json), hostile container types, recursion depth",
     ),
@@ -55,7 +55,7 @@ CLAIMS = {
         "scheduling effects of third-party awaitables",
     ),
     "C09": (
-        "write-effect analysis over the call graph reachable from evaluation entry points; volatility/children coverage rules; who-may-construct rule for cache cells; who-may-store rule over the engine's modules (no class- or module-level container written at run time)",
+        "write-effect analysis over the call graph reachable from evaluation entry points; volatility/children coverage rules; who-may-construct rule for cache cells; who-may-store rule over the engine's modules (no class- or module-level container written at run time); abstract execution of Query._select on covering selections: the document is afterwards the same container objects with the same content",
         "no writes to compiled query/document/context during evaluation, volatility flags, fresh cache per resolution, immutable compiled objects, stateless lexer/parser",
         "(result equality under interleavings follows from the absence of shared writes)",
     ),
@@ -70,12 +70,12 @@ CLAIMS = {
         "json decoding itself",
     ),
     "C12": (
-        "must-analysis (refusal dominates every use of the shared iterator), delegation-shape rules for aliases and views, who-may-write rule for the shared iterator",
+        "must-analysis (refusal dominates every use of the shared iterator), delegation-shape rules for aliases and views, who-may-write rule for the shared iterator; parameter-liveness rule on the three `query` entry points (every argument is handed on)",
         "negative counts refused before consumption, aliases, views, who rewraps",
         "the list-slicing law over operation histories (itertools/deque semantics)",
     ),
     "C13": (
-        "operator-table exhaustiveness against compare's dispatch, reconstructed-lexer alias tables against parser dispatch maps, AST normal forms of mirror operators, forwarding rule for the filter context; abstract execution of CurrentKey and of the lexer's master pattern on alias spellings; abstract execution of the bracket parser on bare and quoted spellings of covering names",
+        "operator-table exhaustiveness against compare's dispatch, reconstructed-lexer alias tables against parser dispatch maps, AST normal forms of mirror operators, forwarding rule for the filter context; abstract execution of CurrentKey and of the lexer's master pattern on alias spellings; abstract execution of the bracket parser on bare and quoted spellings of covering names; abstract execution of compare() on 42 membership samples for `in` / `contains` (arrays by value, strings by substring, objects by member name)",
         "operator exhaustiveness, alias tables, contains mirrors in, =~ full match with flags, keys selector, fake root, filter-context propagation, root-less/bare names",
         "evaluation results of extension queries on arbitrary documents",
     ),
@@ -100,12 +100,12 @@ CLAIMS = {
         "conflicts between an arbitrary spelling and the fixed rules",
     ),
     "C18": (
-        "argparse dest derivation vs handler attribute reads, polarity rule, escape analysis of library calls vs caught classes, output def-use; file-mode vs use rule for file options; options inherited through parents=",
+        "argparse dest derivation vs handler attribute reads, polarity rule, escape analysis of library calls vs caught classes, output def-use; file-mode vs use rule for file options; options inherited through parents=; abstract execution of load_data on a model text stream that yields text no JSON decoder accepts (must raise the decoder's error)",
         "option names, usage and polarity, error coverage with exit status and stderr, output is the library result",
         "argparse/file-system behaviour, byte-exact output",
     ),
     "C19": (
-        "alias/taint analysis of the projection helpers, kind guard, loop-nesting rule, unconditional-store and non-empty-array rules; abstract execution of the selectors (location parts); who-may-write rule for the projection",
+        "alias/taint analysis of the projection helpers, kind guard, loop-nesting rule, unconditional-store and non-empty-array rules; abstract execution of the selectors (location parts); who-may-write rule for the projection; abstract execution of Query._select (containers changed in place) on twelve (match, selections) cases x three styles against the statement written down on its own; the shape rules defer to it when the shape they read is not there",
         "document not written through, non-containers produce nothing, flat projection order, selected values always stored, only non-empty integer-keyed levels become arrays",
         "structure of relative and root projections as a whole (rank compaction, no extra leaves)",
     ),
@@ -188,8 +188,8 @@ def main() -> None:
             "Exit 0 pass, 1 VIOLATION, 2 ANALYSIS-ERROR (fail closed). Genuine defects of the "
             "pinned tree are repaired by fix: commits in /repo (56) or listed in known_findings.json "
             "(6 open: C01 1, C03 2, C06 1, C15 2 - the check prints KNOWN-FINDING for them and exits 0). "
-            "tools/regress.py runs the three corpora kept here: the clean tree, 259 seeded breaking changes "
-            "(seeded/), 340 behaviour-preserving refactorings (refactorings/)."
+            "tools/regress.py runs the three corpora kept here: the clean tree, 319 seeded breaking changes "
+            "(seeded/), 400 behaviour-preserving refactorings (refactorings/)."
         ),
     }
     (HERE / "MANIFEST.json").write_text(json.dumps(manifest, indent=1) + "\n")
